@@ -767,14 +767,29 @@ def run_malformed(case, ctx):
             b = 'contents t.txt : ( num-lines == 3 || is-empty )'
             c = 'contents t.txt : ( every line : contents matches . && num-lines == 3 )'
             c2 = 'contents t.txt : ! ( any line : line-num == 1 && is-empty )'
-            asserts = [a, b, c, c2]
+            # -transformed-by T M takes a SIMPLE matcher: a following infix operator applies to the ORIGINAL text.
+            # (operands whose value differs between the original and the transformed text)
+            d1 = 'contents t.txt : -transformed-by char-case -to-upper matches A && matches a'
+            d2 = 'contents t.txt : ! ( -transformed-by char-case -to-upper matches A && matches B )'
+            d3 = 'contents t.txt : -transformed-by ( filter line-num == 1 ) num-lines == 1 && num-lines == 3'
+            d4 = 'contents t.txt : ( -transformed-by char-case -to-upper matches a || matches a )'
+            d5 = 'contents t.txt : ! ( -transformed-by ( filter line-num == 1 ) num-lines == 3 || num-lines == 1 )'
+            d6 = 'stdout -from $ echo a\n -transformed-by char-case -to-upper\n matches A && ! matches a'
+            asserts = [a, b, c, c2, d1, d2, d3, d4, d5]
         elif host == 'files':
             asserts = ['dir-contents d : ! ( num-files == 2 && is-empty )',
                        'dir-contents d : ( every file : type file && num-files == 2 )',
-                       'dir-contents d : -selection name x ( num-files == 1 && ! is-empty )']
+                       'dir-contents d : -selection name x ( num-files == 1 && ! is-empty )',
+                       # -selection FM M takes a simple files-matcher: the infix operator sees the UNSELECTED model
+                       'dir-contents d : -selection name x num-files == 1 && num-files == 2',
+                       'dir-contents d : ! ( -selection name x num-files == 1 && num-files == 1 )',
+                       'dir-contents d : ( -selection name x num-files == 2 || num-files == 2 )']
         elif host == 'file':
             asserts = ['exists f.txt : ( contents matches a && type file )',
-                       'exists f.txt : ! ( contents matches a && type dir )']
+                       'exists f.txt : ! ( contents matches a && type dir )',
+                       # contents TEXT-MATCHER takes a simple text-matcher: `type file` is a FILE-matcher operand
+                       'exists f.txt : contents -transformed-by char-case -to-upper matches A && type file',
+                       'exists d : dir-contents num-files == 2 && type dir']
         elif host == 'line':
             asserts = ['contents t.txt : ( every line : ( line-num >= 1 && contents matches . ) )',
                        'contents t.txt : ( any line : ( line-num == 2 && contents matches b ) )']
